@@ -35,7 +35,7 @@ REPLAY_DIR = os.environ.get("VERIF_REPLAY_DIR", os.path.join(VERIF, "replays"))
 LOG_DIR = os.environ.get("VERIF_LOG_DIR", os.path.join(VERIF, "logs"))
 SEED_TARGET = os.path.join(VERIF, ".cache", "ktarget-seed")
 
-DEFAULT_FS = int(os.environ.get("VERIF_FS", "0") or 0)
+DEFAULT_FS = int(os.environ.get("VERIF_FS", "4096") or 0)
 
 ENV = dict(os.environ)
 ENV["CARGO_NET_OFFLINE"] = "true"
@@ -199,7 +199,7 @@ def select(hs, prop, tier, only=None):
             continue
         if tier == "quick" and h.prop_tier.get(prop, h.tier) != "quick":
             continue
-        if only and only not in h.id:
+        if only and not any(o in h.id for o in only.split(",")):
             continue
         sel.append(h)
     return sel
